@@ -109,9 +109,16 @@ def find_cause_pep484585_container_args_1(
         # tensors containing one or more values: e.g.,
         #     RuntimeError: Boolean value of Tensor with more than one value is
         #     ambiguous
-        not len(cause.pith) or
-        # This child hint is ignorable...
-        hint_child_sane is HINT_SANE_IGNORABLE
+        # This child hint is ignorable *OR*...
+        hint_child_sane is HINT_SANE_IGNORABLE or
+        # This container is *NOT* a collection (e.g., a generator, iterator,
+        # or container that is unsized or cannot be safely reiterated), the
+        # items of which are *NOT* type-checked by the code generated for this
+        # hint and which does *NOT* necessarily define the __len__() dunder
+        # method called below *OR*...
+        not isinstance(cause.pith, Collection) or
+        # This collection is empty.
+        not len(cause.pith)
     ):
         # Then this container satisfies this hint. In this case, return the
         # passed cause as is.
